@@ -4,6 +4,7 @@
 package simexec
 
 import (
+	"strings"
 	"bytes"
 	"errors"
 	"fmt"
@@ -83,8 +84,18 @@ func Command(name string, arg ...string) *Cmd {
 	return &Cmd{Path: name, Args: append([]string{name}, arg...)}
 }
 
+// LookPath models a PATH on which every plainly named program is installed under /sim/bin
+// (as xdg-open, mpv and the like are on a real system) except names that say they are missing;
+// a name with a slash is returned as it is. A pure function: it is also usable before any
+// simulation runs (configuration is read at process start).
 func LookPath(file string) (string, error) {
-	return "", &Error{Name: file, Err: ErrNotFound}
+	if file == "" || strings.Contains(file, "missing") {
+		return "", &Error{Name: file, Err: ErrNotFound}
+	}
+	if strings.Contains(file, "/") {
+		return file, nil
+	}
+	return "/sim/bin/" + file, nil
 }
 
 func (c *Cmd) String() string { return fmt.Sprint(c.Args) }
